@@ -67,7 +67,9 @@ def deviations(info, seed):
         devs.append(("scripts=latn.TRK", {"layout_scripts": ["latn.TRK"]}))
         devs.append(("scripts=latn.dflt", {"layout_scripts": ["latn.dflt"]}))
     devs.append(("retain-gids", {"retain_gids": True}))
-    devs.append(("no-notdef-glyph", {"notdef_glyph": False}))
+    if "glyf" in t:
+        # "not possible for Postscript-flavored fonts, as those require '.notdef'"
+        devs.append(("no-notdef-glyph", {"notdef_glyph": False}))
     devs.append(("notdef-outline", {"notdef_outline": True}))
     if "glyf" in t:
         devs.append(("recommended-glyphs", {"recommended_glyphs": True}))
@@ -521,8 +523,8 @@ def check_case(info, kind, req, optname, kw, rec, text_alpha, maxlen):
             want = info.cm[cp]
             gid = hb2.nominal(cp)
             got = new_order[gid] if gid is not None and gid < n else None
-            if got is None and cp in cm2 and sub_order.index(cm2[cp]) == 0:
-                got = new_order[0]  # HarfBuzz reads "maps to glyph 0" as unmapped
+            if got is None and not notdef_glyph and want == new_order[0]:
+                got = want  # glyph id 0 cannot be the target of a cmap entry: see below
             if got != want:
                 rec.violation("request:character-missing" + tag, "%s: U+%04X maps to %r in the subset, %r in the original" % (where, cp, got, want))
             requested_glyphs.add(want)
@@ -551,6 +553,15 @@ def check_case(info, kind, req, optname, kw, rec, text_alpha, maxlen):
             rec.violation("cmap:wrong-glyph" + tag, "%s: subset maps U+%04X to %r, original to %r" % (where, cp, gname, info.cm.get(cp)))
         else:
             retained.add(cp)
+    if not notdef_glyph and new_order and new_order[0] != info.notdef:
+        # --no-notdef-glyph: the first kept glyph takes glyph id 0, which a cmap cannot express
+        # ("maps to the missing glyph"); every consumer shows glyph 0 for such a character, so it
+        # still behaves as mapped to its glyph.  Such characters stay in the text alphabet.
+        memcm, _ = F.unicode_map(r.mem_font)
+        for cp, g in memcm.items():
+            if g == new_order_raw[0] and info.cm.get(cp) == new_order[0]:
+                retained.add(cp)
+                rec.witness("character mapped to glyph 0 under --no-notdef-glyph")
     for (base, sel), g2 in uvs2.items():
         if (base, sel) not in info.uvs:
             rec.violation("cmap:wrong-glyph" + tag, "%s: subset has variation sequence <U+%04X U+%04X> the original lacks" % (where, base, sel))
@@ -622,7 +633,7 @@ def check_case(info, kind, req, optname, kw, rec, text_alpha, maxlen):
                     rec.violation("shape:positions" + tag, "%s: text %r (location %s, script/lang %s): original %s, subset %s" % (where, text, info.locs[li], mode, a, bn))
                 if not mark_seen and any((x[4] or x[5]) and info.gdef_classes.get(x[0]) == 3 for x in a):
                     mark_seen = True
-    rec.evals(ntexts)
+    rec.count("texts shaped and compared", ntexts)
     if mark_seen:
         rec.witness("mark attachment present in a text")
 
